@@ -71,7 +71,9 @@ def make_datasets(chk, quick, root):
         layout = "test" if i < ntest else "exceeds"
         base = os.path.join(root, "ds%03d" % i)
         n = [2, 3, 8, 96][i] if i < 4 else None
-        t = gadata.synth(base, "Test", "g0", rng, n=n, shape=shapes[i % 6] if layout == "test" else rng.choice(["flat", "phase"]), layout=layout)
+        # (the first two tables of the second layout end their grid exactly at the maximum energy sum, in every run)
+        t = gadata.synth(base, "Test", "g0", rng, n=n, shape=shapes[i % 6] if layout == "test" else rng.choice(["flat", "phase"]), layout=layout,
+                         emax_at_q=(True if i in (ntest, ntest + 1) else None) if layout == "exceeds" else None)
         if i % 3 == 1:
             # the step field of the header is informative only (the shipped Test table and the documentation example carry a rounded
             # one; the loaders recompute it from E_min, E_max and the number of samples): write a rounded / plainly different value
